@@ -765,7 +765,7 @@ func c08gen(c *h.Ctx, yield func(*h.Case)) {
 	{
 		seqs := []string{"m;i:v/a;m", "i:v/a;m;m", "m;i:v/v;m", "i:h/a;m", "m;x;i:o/a;x;m", "i:a/a;m", "i:v/a;i:a/a;m", "i:v/a;i:o/a;i:h/h;m;m", "m;m;m", "x;m"}
 		keys := []string{"h", "v", "a", "o"}
-		for i := 0; i < c.Pick(10, 200); i++ {
+		for i := 0; i < c.Pick(10, 100); i++ {
 			var it []string
 			for k := 1 + r.Intn(8); k > 0; k-- {
 				switch r.Intn(5) {
